@@ -163,6 +163,8 @@ pub struct Cluster {
     /// incarnation and replica snapshots (the observer drains the node's outbound channel before
     /// recording a snapshot, so a message always precedes the snapshot of the state it was sent in).
     pub obs: Rc<std::cell::RefCell<Vec<Obs>>>,
+    /// Per node: what its live replica sent since its last snapshot (input of the reference replica).
+    pub sent_since: Vec<Vec<super::refmodel::Sent>>,
     /// Outbound channel of the live incarnation of each node.
     pub outs: Rc<std::cell::RefCell<Vec<Option<channel::UnboundedReceiver<ConsensusInputMessage>>>>>,
 }
@@ -274,6 +276,7 @@ impl Cluster {
             panics_seen: kit::panics::count(),
             draining: false,
             obs,
+            sent_since: (0..n).map(|_| vec![]).collect(),
             outs,
             cfg,
         }
@@ -449,6 +452,8 @@ impl Cluster {
                     self.nodes[i].view = Some(s.view.0);
                     self.nodes[i].deadline = s.view_timeout;
                     self.hub.on_snapshot(i, inc, s, &durable);
+                    let sent = std::mem::take(&mut self.sent_since[i]);
+                    self.hub.on_model_step(i, inc, s, &sent, self.cfg.max_payload);
                 }
                 Obs::Msg(i, m) => {
                     let i = *i;
@@ -471,6 +476,9 @@ impl Cluster {
                         _ => None,
                     });
                     self.hub.ev(format!("n{i}.{inc} -> {}", describe(m)));
+                    if let Some(x) = super::refmodel::sent_of(m) {
+                        self.sent_since[i].push(x);
+                    }
                     self.hub.on_outbound(i, inc, m, &durable);
                     self.hub.check_self_justifying(i, inc, m, self.nodes[i].view, next_snap);
                     self.adversary.observe(m);
